@@ -14,6 +14,8 @@ func checkC08(c *Check) {
 	c.readerFraming("C08.1 framing")
 	c.readerHandoff()
 	c.messageDispatch("C08.1 type-dispatch")
+	c.messageResults("C08.1 type-results")
+	c.specConstants("C08.1 spec-constants", "openMessageType", "updateMessageType", "notificationMessageType", "keepAliveMessageType", "headerLength", "maxMessageLength", "NOTIF_CODE_MESSAGE_HEADER_ERR", "NOTIF_SUBCODE_CONN_NOT_SYNCHRONIZED", "NOTIF_SUBCODE_BAD_MESSAGE_LEN", "NOTIF_SUBCODE_BAD_MESSAGE_TYPE")
 	c.notificationEncode("C08.3 notification-encode")
 	c.notifSentThenTeardown("C08.2 notification-sent")
 	c.writeSites("C08.3 frames-not-interleaved")
